@@ -385,9 +385,10 @@ def monitor(case, res):
         tags['exception'] = d['exception'].split(':', 1)[1]
     if len(set(tags.values())) > 1:
         mon.append(dict(prop='C12', rule='disagree', detail=f'different errors from different accessors: {tags}'))
+    # NOT a clause of C12 (a rewrite that touches the caller's dict but keeps every accessor right would be a false
+    # alarm): recorded in the result for the evidence / as a hint next to a real finding, never a monitor hit
     if res.get('kwargs_foreign'):
-        mon.append(dict(prop='C12', rule='caller-kwargs-modified',
-                        detail=f'Process()/Thread() changed the dict the caller passed as kwargs=: foreign keys {res["kwargs_foreign"]}'))
+        res['note_caller_kwargs_modified'] = res['kwargs_foreign']
     if res.get('tb_problems'):
         mon.append(dict(prop='C12', rule='traceback', detail='; '.join(res['tb_problems'])[:600]))
     return mon
